@@ -95,6 +95,24 @@ def run(ctx):
     t = src(pr)
     ok = "iter_nested_value((args, kwargs))" in t and "isinstance(value, Handle)" in t and "self.backend.rollback_handle(value)" in t
     r2.check(ok, f"{m.rel}:Scheduler._perform_rollbacks", "not every Handle leaf of the arguments is rolled back", m.rel, pr.lineno)
+    # the only condition on the rollback is "the leaf is a Handle": rollback_handle(h) invalidates the descendants of that *state*, so two
+    # states of one handle name each need their own rollback (no de-duplication by name, no early exit from the loop)
+    pcfg = CFG(pr)
+    rbc = [c for c in calls_in(pr) if call_name(c) == "self.backend.rollback_handle"]
+    if not rbc:
+        raise AnalysisError("_perform_rollbacks no longer calls backend.rollback_handle", "Scheduler._perform_rollbacks")
+    for c in rbc:
+        fs = facts_at(pcfg, pcfg.node_of(c))
+        extra = sorted(f"{'' if t_ else 'not '}{f}" for f, t_ in fs if not (t_ and f.replace(" ", "").startswith("isinstance(") and f.replace(" ", "").endswith(",Handle)")))
+        leaves = [n for n in ast.walk(pr) if isinstance(n, (ast.Break, ast.Return, ast.Continue))]
+        r2.check(
+            not extra and not leaves,
+            f"{m.rel}:Scheduler._perform_rollbacks:every-handle-state",
+            f"the rollback of a Handle argument is also conditional on {extra or 'a break/continue/return in the loop'}: a task given two states (forks) of one handle name rolls back only one of them, states "
+            "derived from the other stay valid after the task is edited and re-run, and a revert replays the stale cached result",
+            m.rel,
+            c.lineno,
+        )
     call = next(c for c in calls_in(ex, shallow=True) if call_name(c) == "self._perform_rollbacks")
     r2.check([src(a) for a in call.args] == ["args", "kwargs"], f"{m.rel}:{lc.EXEC}:rollback-args", "rollbacks are not computed from the job's preprocessed arguments", m.rel, call.lineno)
 
